@@ -31,7 +31,22 @@ def main(argv=None) -> int:
         mod.run(ck)
         return ck.finish(proof, mod.RULE, getattr(mod, "TRUSTED", TRUSTED_DEFAULT), getattr(mod, "ASSUMPTIONS", ASSUMPTIONS_DEFAULT),
                          [f"CCT.{a.prop}.{t}" for t in getattr(mod, "THEOREMS", [])])
-    except Exception:
+    except Exception as e:
+        tb = traceback.format_exc()
+        repo = os.path.realpath(os.environ.get("CCT_REPO", "/repo"))
+        frames = traceback.extract_tb(e.__traceback__)
+        in_repo = [f for f in frames if os.path.realpath(f.filename).startswith(repo + os.sep)]
+        if in_repo:
+            # the library raised where the harness expected it to work (a behaviour change no oracle anticipated): reported as a violation
+            # whose replay is the call chain; no input was minimised
+            import json
+            from .proto import VERIF
+            os.makedirs(os.path.join(VERIF, "replays"), exist_ok=True)
+            rp = os.path.join(VERIF, "replays", f"{a.prop}-{a.seed}-unexpected-exception.json")
+            json.dump({"property": a.prop, "kind": "implementation-raised-unexpectedly", "exception": repr(e)[:500], "traceback": tb[-3000:],
+                       "correspondence": "harness step that calls the library on a valid input", "seed": a.seed}, open(rp, "w"), indent=1)
+            print(f"VIOLATION property={a.prop} replay={rp} no-failing-input-found")
+            return 1
         traceback.print_exc()
         print("INFRASTRUCTURE ERROR (harness crashed; not a violation)", file=sys.stderr)
         return 2
